@@ -4,6 +4,7 @@
 //   ascii_drv --mode mut     --seed S --n N --mutants M             --out FILE --tmp DIR
 //   ascii_drv --mode pending --seed S --n N                         --out FILE --tmp DIR
 //   ascii_drv --mode read    --in FILE --kind poly|tet|hex --chk 0|1 --bu 0|1 --out FILE --tmp DIR
+//   (--nofork 1: reads run in-process, for looking at a sanitizer report by hand)
 //   ascii_drv --mode types                                 (prints the ASCII typeName list it covers)
 //
 // Every read of text runs in a forked child with a wall-clock watchdog (--timeout ms); a hang,
@@ -53,6 +54,7 @@ typedef unsigned int uint_t; typedef unsigned long ulong_t; typedef unsigned cha
 static FILE* OUT = stdout;
 static std::string TMPDIR = ".";
 static int TIMEOUT_MS = 5000;
+static bool NOFORK = false;   // --nofork 1: run reads in-process (to see the sanitizer report on stderr)
 
 // ---------------------------------------------------------------------------------------------
 // the ASCII value types (TypeNames.cc); io_ascii.py cross-checks this list against the source
@@ -269,6 +271,7 @@ struct ChildResult { bool exited; int code; int sig; bool timeout; std::string o
 
 static ChildResult run_child(const std::function<void(FILE*)>& body) {
     ChildResult r{false, 0, 0, false, "", ""};
+    if (NOFORK) { body(OUT); r.exited = true; return r; }
     int fds[2];
     if (pipe(fds) != 0) { perror("pipe"); exit(3); }
     std::string errpath = TMPDIR + "/ascii_drv." + std::to_string(getpid()) + ".err";
@@ -838,7 +841,7 @@ int main(int argc, char** argv) {
         else if (k == "--n") a.n = atoi(v.c_str()); else if (k == "--mutants") a.mutants = atoi(v.c_str());
         else if (k == "--out") a.out = v; else if (k == "--tmp") TMPDIR = v; else if (k == "--in") a.in = v;
         else if (k == "--kind") a.kind = v; else if (k == "--chk") a.chk = v == "1"; else if (k == "--bu") a.bu = v == "1";
-        else if (k == "--timeout") TIMEOUT_MS = atoi(v.c_str()); else if (k == "--valence0") a.valence0 = v == "1";
+        else if (k == "--timeout") TIMEOUT_MS = atoi(v.c_str()); else if (k == "--nofork") NOFORK = v == "1"; else if (k == "--valence0") a.valence0 = v == "1";
         else { fprintf(stderr, "unknown option %s\n", k.c_str()); return 2; }
     }
     if (argc >= 3 && std::string(argv[argc - 2]) != "--mode" && a.mode.empty()) return 2;
